@@ -193,7 +193,7 @@ func c15VerifyBothResults(c *core.Ctx, br *ssa.Function) {
 	for _, r := range returnsOf(br) {
 		if !argIsParam(facts.RetVal(r, 0), br, 0) && !argIsParam(facts.RetVal(r, 0), br, 1) {
 			// an error result built with mkErr
-			if call, ok := facts.RetVal(r, 0).(*ssa.Call); ok && call.Call.IsInvoke() && call.Call.Method.Name() == "mkErr" {
+			if call, ok := facts.RetVal(r, 0).(*ssa.Call); ok && call.Call.IsInvoke() && methName(call.Call.Method.Name()) == "mkErr" {
 				continue
 			}
 			c.Fail("C15.R2", "bothResults/returns", r.Pos(), "bothResults returns something that is neither one of its arguments nor an error built by mkErr")
@@ -203,7 +203,7 @@ func c15VerifyBothResults(c *core.Ctx, br *ssa.Function) {
 		nilErr := map[int]bool{}
 		for _, cd := range facts.CondsAt(r.Block()) {
 			if x, isNil, ok := facts.NilCheck(cd); ok && isNil {
-				if call, isCall := facts.Resolve(x).(*ssa.Call); isCall && call.Call.IsInvoke() && call.Call.Method.Name() == "error" {
+				if call, isCall := facts.Resolve(x).(*ssa.Call); isCall && call.Call.IsInvoke() && methName(call.Call.Method.Name()) == "error" {
 					if argIsParam(call.Call.Value, br, 0) {
 						nilErr[0] = true
 					}
@@ -365,7 +365,7 @@ func c15TagRead(c *core.Ctx, fn *ssa.Function, key string) {
 			if cc.IsInvoke() && cc.Method.Name() == "Close" {
 				closes++
 			}
-			if sc := cc.StaticCallee(); sc != nil && (sc.Name() == "close" || (sc.Origin() != nil && sc.Origin().Name() == "close")) {
+			if sc := cc.StaticCallee(); sc != nil && (methName(sc.Name()) == "close" || (sc.Origin() != nil && methName(sc.Origin().Name()) == "close")) {
 				closes++
 			}
 		}
